@@ -25,6 +25,7 @@ const (
 	c06ColoredBg = slog.Level(42) // registered with fg + bg
 	c06BgOnly    = slog.Level(43) // colours given with SetLevelColors: no foreground, an attribute (underline) only
 	c06SetFgBg   = slog.Level(44) // colours given with SetLevelColors: foreground and background
+	c06Partial   = slog.Level(45) // registered with a short tag for width 3 only
 )
 
 func c06setupWorld() {
@@ -37,6 +38,7 @@ func c06setupWorld() {
 	slog.SetLevelColors(c06BgOnly, color.NoColor, color.BgUnderline)
 	_ = slog.RegisterLevel(c06SetFgBg, "alert44", slog.RegWithTreatedAsLevel(slog.WarnLevel))
 	slog.SetLevelColors(c06SetFgBg, color.FgLightRed, color.BgBlink)
+	_ = slog.RegisterLevel(c06Partial, "audit45", slog.RegWithShortTags([6]string{3: "AUD"}), slog.RegWithTreatedAsLevel(slog.InfoLevel))
 }
 
 func hasCtl(s string, allowLF bool) bool {
@@ -311,7 +313,7 @@ var c06msgs = []string{"m", "short message", strings.Repeat("x", 36), strings.Re
 func c06cases(thorough bool, emit func(rc recCase)) {
 	base := recCase{Format: "color", MsgQ: qk("m"), Level: int(slog.InfoLevel)}
 	sevs := []slog.Level{slog.PanicLevel, slog.FatalLevel, slog.ErrorLevel, slog.WarnLevel, slog.InfoLevel, slog.DebugLevel, slog.TraceLevel,
-		slog.AlwaysLevel, slog.OKLevel, slog.SuccessLevel, slog.FailLevel, c06Colored, c06Plain, c06ColoredBg, c06Unknown, c06BgOnly, c06SetFgBg}
+		slog.AlwaysLevel, slog.OKLevel, slog.SuccessLevel, slog.FailLevel, c06Colored, c06Plain, c06ColoredBg, c06Unknown, c06BgOnly, c06SetFgBg, c06Partial}
 	// A: severity x widths x messages
 	for _, sev := range sevs {
 		for low := 1; low <= 5; low++ {
